@@ -5,6 +5,7 @@ import Acra.Drv.SpecMpeg
 import Acra.Drv.SpecCh10
 import Acra.Drv.SpecNet
 import Acra.Drv.SpecGolay7
+import Acra.Drv.SpecCh11
 namespace Acra.Drv
 def specFuncs : List Func := List.flatten [
   specFuncsFTI,
@@ -13,6 +14,7 @@ def specFuncs : List Func := List.flatten [
   specFuncsMpeg,
   specFuncsCh10,
   specFuncsNet,
-  specFuncsGolay7
+  specFuncsGolay7,
+  specFuncsCh11
 ]
 end Acra.Drv
